@@ -58,6 +58,9 @@ PROPS = {
     "C12": dict(engine="e1", quick=10000, thorough=200000, level="exploration",
                 text="Seeded cyclic programs over a 4-bit set lattice with monotone q_fix/q_fixj members (nested, input-conditional cycles), all entry orders, histories that create/remove/reshape cycles; every value = least fixpoint computed by Kleene iteration in the reference.",
                 note="Monotonicity and input-only call-graph shape are enforced by a taint discipline in the generator and re-checked by Program::valid."),
+    "C13": dict(engine="e1", quick=2500, thorough=60000, level="exploration",
+                text="Cyclic programs whose block members use cycle_result; expected = fallback for every node on a cycle of the input-determined call graph (SCC analysis in the reference), body value over those results elsewhere; all entry orders within a revision, and histories that form/break cycles. One genuine defect is recorded (known-findings.txt) and matched by its own diagnosis class; every other mismatch is a violation.",
+                note="The single-revision class is free of the recorded finding's trigger; the history class reports it as KNOWN-FINDING."),
     "C14": dict(engine="e1", quick=10000, thorough=200000, level="exploration",
                 text="Cyclic programs whose block mixes functions without recovery and q_fix; per request: a cycle panic is required on a fresh database when the from-scratch DFS re-enters a non-recovering function, allowed whenever such a function lies on a reachable cycle, otherwise the least-fixpoint value is required; after a panic the same revision may report PropagatedPanic for poisoned heads; later revisions and unrelated nodes = reference. (single-thread part; the multi-thread part runs on E3)",
                 note="Hang detection single-threaded = the run returns; cross-thread part pending E3."),
@@ -88,6 +91,14 @@ def build(engine):
         sys.stdout.write(p.stdout[-6000:])
         print(f"HARNESS-ERROR build of engine {engine} failed")
         sys.exit(2)
+
+
+def known_classes(prop):
+    out = []
+    for p, sig, _ in load_known():
+        if p == prop and sig:
+            out += sig.split("|", 1)[1].split("+")
+    return sorted(set(out))
 
 
 def load_known():
@@ -133,7 +144,7 @@ def run_check(prop, tier):
         out = os.path.join(out_root, f"w{w}")
         cmd = [sim_bin(engine), "run", "--prop", prop, "--tier", tier, "--base", str(seed),
                "--from", str(w * per_worker), "--to", str((w + 1) * per_worker), "--out", out,
-               "--max-s", str(cfg.get("max_s_" + tier, 100000))]
+               "--max-s", str(cfg.get("max_s_" + tier, 100000)), "--known", ",".join(known_classes(prop))]
         procs.append((w, out, subprocess.Popen(cmd, env=ENV, stdout=subprocess.PIPE, stderr=subprocess.PIPE, text=True)))
     results, harness_errors, aborts = [], [], []
     for w, out, p in procs:
@@ -169,8 +180,12 @@ def run_check(prop, tier):
     known = load_known()
     confirmed, known_hits = [], []
     rep_dir = os.path.join(ROOT, "replays", prop)
+    known_hit_counts = {}
     for r in results:
-        for v in r["violations"]:
+        for k, v in r.get("known_hits", {}).items():
+            known_hit_counts[k] = known_hit_counts.get(k, 0) + v
+    for r in results:
+        for v in r["violations"] + r.get("known_samples", []):
             p = subprocess.run([sim_bin(engine), "replay", v["replay"]], env=ENV, stdout=subprocess.PIPE, stderr=subprocess.PIPE, text=True)
             if p.returncode == 1 and "REPRODUCED" in p.stdout:
                 sig = v.get("signature", "")
@@ -224,7 +239,8 @@ def run_check(prop, tier):
             "components": COMPONENTS.get(engine, {}),
             "engine": engine,
             "workers": NPROC,
-            "known_findings_hit": [k[0] for k in known_hits],
+            "known_findings_hit": sorted(set(k[0] for k in known_hits)),
+            "known_finding_runs": known_hit_counts,
         },
         "assumptions": [
             "the reference interpreter (sim/src/refi.rs) is the specification of from-scratch results",
@@ -241,9 +257,11 @@ def run_check(prop, tier):
         if sig not in seen:
             seen.add(sig)
             print(f"KNOWN-FINDING: property={prop} {desc} [signature {sig}]")
-    for v, dst in confirmed:
+    for v, dst in confirmed[:10]:
         print(f"VIOLATION property={prop} replay={dst}")
         print(f"  seed={v['seed']} classes={','.join(v['classes'])} detail={v.get('detail')}")
+    if len(confirmed) > 10:
+        print(f"  ... and {len(confirmed) - 10} more confirmed violations (replays under replays/{prop}/)")
     print(f"{prop} {tier}: runs={runs} distinct_nontrivial={len(nontrivial)} steps={steps} revisions={revisions} wall={wall:.1f}s violations={len(confirmed)} known={len(known_hits)} harness_errors={len(harness_errors)}")
     if confirmed:
         sys.exit(1)
